@@ -268,3 +268,4 @@ not_reproduced()
 # level text addendum (cases added after the seeded-change rounds)
 LEVEL_TEXT = LEVEL_TEXT + ' Also: Reader.read_sync on a nidq file (digital bits + per-line floor removal of the analog lines), twice on one reader.'
 LEVEL_TEXT = LEVEL_TEXT + ' Round 6: casts of integers to 8-bit types wrap in the engine (front polarities beyond +-127 must survive), read_sync with the floor removal switched off.'
+LEVEL_TEXT = LEVEL_TEXT + ' Round 7: index arrays keep their documented shape for exactly one event (1-D: (1,), 2-D: (2, 1)); analog falls equal the rises of the negated trace, samples equal to the threshold included.'
